@@ -549,3 +549,7 @@ Proof.
       unfold idxn. rewrite Ek. apply Nat2Z.id.
   - apply inj_le. apply nodup_map_length.
 Qed.
+
+(* the rows of the three tables are selected by p - 7 in HyperLogLog.__init__ (offset re-read from the source) *)
+Lemma table_offset_ok : Consts.hll_table_offset = 7%Z.
+Proof. reflexivity. Qed.
